@@ -13,24 +13,40 @@ GENERATED = []
 SOURCES = ["src/allmydata/uri.py", "src/allmydata/unknown.py", "src/allmydata/nodemaker.py"]
 DESIGN_REF = "DESIGN.md §2 C16"
 TECHNIQUE = ("Lean 4 theorems over an executable model of the cap classes' get_readonly/get_verify_cap/is_readonly/is_mutable, "
-             "from_string prefix handling, UnknownNode.__init__ and create_from_cap, with the tagged hashes as uninterpreted "
-             "functions; differential correspondence of every derivation and flag on generated caps × prefixes × contexts")
-LEVEL_TEXT = ("chain_same_si_fp, attenuation_noninterference, flags_sound, alleged_prefix_respected, node_respects_context and "
-              "unknown_prefix_kept are proved in Lean for all cap objects / all byte strings / both contexts and every choice of "
-              "hash functions; the model is tied to uri.py, unknown.py and nodemaker.py by correspondence on real objects.")
-LEVEL_NOTE = ("Lean kernel + standard axioms. Hashes are abstract (the driver receives the real hash values as tables); "
-              "node classes are represented by their kind, NodeMaker's cache and blacklist are not modelled.")
-RULE = ("a case is one cap object (all derivations and flags), one (prefix+string, deep) pair through from_string, one "
-        "UnknownNode(rw, ro, deep) or one create_from_cap(w, r, deep) call; distinct = distinct inputs; non-trivial = the "
-        "object is not LIT/unknown for attenuation, the string reaches a cap pattern for from_string, at least one cap is "
-        "given for UnknownNode/create_from_cap")
+             "an explicit authority order (write > read > verify > opaque), from_string prefix handling, UnknownNode.__init__, "
+             "strip_prefix_for_ro, create_from_cap with its node cache, what dirnode stores in the cleartext ro slot and what "
+             "_unpack_contents makes of an entry, with the tagged hashes as uninterpreted functions; differential correspondence "
+             "on a fixed corpus and generated inputs: every derivation/flag/authority on real cap objects, caps x prefixes x "
+             "contexts, (rw, ro) pairs through UnknownNode / create_from_cap / pack -> unpack, create_from_cap histories on one "
+             "NodeMaker, hand-crafted DIR2-LIT / DIR2-CHK / read-only mutable directories, and an in-process grid scenario")
+LEVEL_TEXT = ("Proved in Lean for all cap objects / all byte strings / both contexts / every choice of hash functions: "
+              "chain_same_si_fp, attenuation_noninterference, flags_sound, authority_monotone (diminishing is monotone "
+              "non-increasing), alleged_prefix_respected, parsed_authority_bounded, node_respects_context, cache_is_memoryless "
+              "(every create_from_cap history equals the cold calls), unknown_prefix_kept, ro_slot_never_writes and "
+              "ro_slot_end_to_end (set_uri -> pack -> ro slot -> _unpack_contents incl. rstrip: the reader never gets more than "
+              "read authority, except roSlotException), immutable_dir_children (children of DIR2-CHK and DIR2-LIT directories are "
+              "refused or read-only & immutable, transitively). The single exception is proved inhabited "
+              "(ro_slot_exception_is_real, ro_slot_unprefixed_writecap_counterexample) and is the open known finding "
+              "ro-slot-unprefixed-writecap-in-unknownnode.")
+LEVEL_NOTE = ("Lean kernel + standard axioms. Hashes are abstract (the driver receives the real hash values as tables; their "
+              "values are C17's subject); node classes are represented by their kind; NodeMaker's blacklist is not modelled. "
+              "Of the directory serialisation only the ro-slot string and the per-entry handling of _unpack_contents are "
+              "modelled (netstring framing, encrypted rw slot, metadata: not covered); the grid scenario is monitor-only.")
+RULE = ("a case is one cap object (all derivations, flags, authority), one (prefix+string, deep) pair through from_string, one "
+        "UnknownNode(rw, ro, deep) / create_from_cap(w, r, deep) call with its ro-slot route, one call of a create_from_cap "
+        "history, or one hand-crafted directory entry read by _unpack_contents; distinct = distinct inputs (history prefix "
+        "for histories); non-trivial = the object is not LIT/unknown for attenuation, the string reaches a cap pattern for "
+        "from_string, at least one cap is given for UnknownNode/create_from_cap, the ro slot is non-empty for directory entries")
 TRUSTED = ["lean/Tahoe/Uri/Caps.lean is a hand transcription of the attenuation methods, UnknownNode.__init__, "
-           "strip_prefix_for_ro and create_from_cap/_create_from_single_cap",
-           "NodeMaker is driven with stub storage_broker/terminator objects (no grid); only the node class and its flags are observed"]
+           "strip_prefix_for_ro, create_from_cap/_create_from_single_cap (with cache), the ro-slot part of "
+           "_pack_normalized_children and the per-entry part of _unpack_contents",
+           "NodeMaker / DirectoryNode are driven with stub storage_broker/terminator objects (no grid) except in the grid "
+           "scenario (harness/grid.py); only node class, flags, uris and authority are observed"]
 ASSUMPTIONS = ["hashutil.ssk_readkey_hash / ssk_storage_index_hash / storage_index_hash are treated as arbitrary functions "
                "(their values are C17's subject); storage indexes have 16 bytes",
+               "the reader of a directory has no write key (rw slot not decrypted); directory kinds with write access are "
+               "outside unpackChild",
                "C15's grammar edge classes (leading zeros, CHK-verifier junk) are not generated here"]
-
 
 def tables_for(c):
     """hash tables (rk, si, chk) covering the attenuation of cap object c, from the real attributes"""
